@@ -217,7 +217,8 @@ class Check:
 
         def run(job):
             k, path = job
-            rc, out = sh("coqc -noglob -Q %s ZV -Q %s W %s" % (COQ, d, path), timeout=timeout, cwd=d)
+            rc, out = sh("ulimit -s unlimited 2>/dev/null || ulimit -s 1000000 2>/dev/null; "
+                         "coqc -noglob -Q %s ZV -Q %s W %s" % (COQ, d, path), timeout=timeout, cwd=d)
             return k, rc, out
         bad = {}
         with ThreadPoolExecutor(max_workers=16) as ex:
